@@ -542,6 +542,67 @@ Section StreamProofs.
       - unfold Stream.init_stream. cbn [core]. apply init_wf'. exact llen_pos. }
     rewrite Q. unfold outcome_for, Stream.spec_stream, Stream.init_stream. cbn [pend]. reflexivity.
   Qed.
+
+  (* ---------------------------------------------------------------- what the callback (the cache writer) has seen when the body fails *)
+  Local Notation size := (size L llen).
+
+  Lemma stream_step_cb : forall x r x' p0, CI (core x) -> RI x -> fails (pend x) = true ->
+    fold_recog init_ps lines = inl p0 ->
+    step_stream x = SDone r x' -> r = RErr LOAD_ERROR 0 /\ cbsum (core x') = size lines.
+  Proof.
+    intros x r x' p0 Hci [Hc Hu] Hf Hfold H. pose proof Hci as [W Hpr _ _ Hfed].
+    destruct (refill (cur x) (pend x)) as [[c1 pend1]|] eqn:R.
+    - exfalso. destruct (refill_some _ _ _ _ Hc R) as [A [B [C D]]].
+      assert (Hpos : 0 < c1).
+      { destruct (Z.eq_dec c1 0) as [Q|Q]; [|lia]. destruct (D Q) as [_ D2]. congruence. }
+      rewrite (step_stream_unfold x c1 pend1 W Hpr R) in H.
+      destruct (sar (Z.max 0 (Z.min (space (buf (core x))) c1)) [] (space (buf (core x))) (core x)) as [s2|r2 s2|t2] eqn:S;
+        cbn [Stream.wrap] in H; try discriminate.
+      destruct (sar_done_reject (core x) c1 r2 s2 Hci Hpos S) as [c [tk [l [r' [p1 [Q1 [Q2 [Q3 Q4]]]]]]]].
+      pose proof (fold_err (core x) c tk l r' p1 Hci Q2 Q3 Q4) as FE. congruence.
+    - destruct (refill_none _ _ Hc R) as [N1 _].
+      unfold Stream.step_stream in H. rewrite R, Hpr in H.
+      rewrite (geom_ok_true _ (wf_geom _ _ _ _ _ _ _ _ _ _ _ (wf_m _ _ _ _ _ _ _ _ _ _ _ W))) in H. cbn [negb andb] in H.
+      inversion H; subst r x'. split; [reflexivity|]. cbn [core].
+      pose proof (wf_m _ _ _ _ _ _ _ _ _ _ _ W) as Wm.
+      pose proof (wf_partial _ _ _ _ _ _ _ _ _ _ _ W Hpr) as Hp. unfold partial in Hp.
+      pose proof (wf_acct _ _ _ _ _ _ _ _ _ _ _ Wm) as Wa.
+      pose proof (wf_pr_off _ _ _ _ _ _ _ _ _ _ _ Wm Hpr) as Wo.
+      pose proof (delivered_nonneg (pend x)).
+      assert (Hrest : rest (core x) = []).
+      { destruct (rest (core x)) as [|l t]; [reflexivity|]. cbn [Model.size] in Wa.
+        pose proof (size_nonneg L llen PS init_ps recog bump lineno llen_pos t). lia. }
+      rewrite (wf_cb _ _ _ _ _ _ _ _ _ _ _ Wm), (wf_total _ _ _ _ _ _ _ _ _ _ _ Wm), Wo.
+      pose proof (wf_lines _ _ _ _ _ _ _ _ _ _ _ Wm) as Wl. rewrite Hrest, app_nil_r in Wl. rewrite <- Wl. lia.
+  Qed.
+
+  Lemma stream_run_cb : forall n x r x' p0, CI (core x) -> RI x -> WF (core x) -> fails (pend x) = true ->
+    fold_recog init_ps lines = inl p0 ->
+    iter_nat_s n x = SDone r x' -> r = RErr LOAD_ERROR 0 /\ cbsum (core x') = size lines.
+  Proof.
+    induction n as [|n IH]; intros x r x' p0 Hci Ri W Hf Hfold H; cbn [iter_nat_s] in H; [discriminate|].
+    pose proof (stream_step_ci x Hci Ri) as CS. pose proof (stream_step_wf x W Ri) as SW.
+    destruct (step_stream x) as [x1|r1 x1|t] eqn:E.
+    - destruct SW as [W1 [R1 [_ F1]]]. apply (IH x1 r x' p0 CS R1 W1); [rewrite F1; exact Hf|exact Hfold|exact H].
+    - injection H as H1 H2. subst r1 x1. exact (stream_step_cb x r x' p0 Hci Ri Hf Hfold E).
+    - contradiction.
+  Qed.
+
+  (* the body fails and no delivered complete line is rejected: the outcome is the load error and the callback has been
+     given exactly the complete lines that were delivered (not the unterminated rest) *)
+  Lemma stream_failed_cb : forall script p0, delivered script = ilen -> fails script = true ->
+    fold_recog init_ps lines = inl p0 ->
+    exists x, drive_stream lines t0 script = Ret (RErr LOAD_ERROR 0, x) /\ cbsum (core x) = size lines.
+  Proof.
+    intros script p0 Hd Hf Hfold. destruct (stream_total script Hd) as [r [x [H _]]].
+    pose proof H as H'. unfold Stream.drive_stream in H'. rewrite iter_stream_nat in H'.
+    destruct (iter_nat_s (Pos.to_nat (fuel_for L llen lines t0)) (init_stream lines t0 script)) as [x1|r1 x1|t] eqn:E;
+      try discriminate.
+    inversion H'; subst r1 x1.
+    destruct (stream_run_cb _ (init_stream lines t0 script) r x p0 (ci_init L llen PS init_ps recog bump lineno llen_pos lines t0 [])
+                            (init_RI script Hd) (init_wf' L llen PS init_ps recog bump lineno llen_pos lines t0 []) Hf Hfold E) as [Q1 Q2].
+    exists x. subst r. split; [exact H|exact Q2].
+  Qed.
 End StreamProofs.
 
 (* ------------------------------------------------------------------ corollaries *)
